@@ -68,6 +68,22 @@ def main():
                 n = int(rq.split(":")[1])
                 Indices().get_generic_indices(occ=n, virt=n)
                 rec["kind"] = "registry"
+            elif rq.startswith("rt:"):
+                # print / import round trip in THIS configuration (C18)
+                from adcgen.func import import_from_sympy_latex
+                res, tstr = MENU[rq[3:]]()
+                tsyms = get_symbols(tstr)
+                x = Expr(res, real=True, target_idx=tsyms).expand()
+                text = str(x)
+                back = import_from_sympy_latex(text)
+                post = Expr(back.sympy, **x.assumptions)
+                ctx = adapter.Ctx()
+                pre_t = adapter.project_expr(x, ctx)
+                post_t = adapter.project_expr(post, ctx)
+                rec.update({"kind": "rt", "pre": pre_t, "post": post_t,
+                            "idx": ctx.idx, "names": ctx.name_list(),
+                            "tgt": [ctx.index(s) for s in tsyms],
+                            "text": text[:400], "text_equal": str(post) == text})
             else:
                 res, tstr = MENU[rq]()
                 if tstr is None:
